@@ -515,6 +515,9 @@ func (i *interpreter) call(caller *frame, callpos token.Pos, fn value, args []va
 
 func (i *interpreter) callSSA(caller *frame, callpos token.Pos, fn *ssa.Function, args []value, env []value) value {
 	fr := &frame{i: i, caller: caller, fn: fn}
+	if caller != nil && caller.caller == nil {
+		i.callEpoch++ // a call made by the harness function itself: one "operation" of the code under test
+	}
 	i.depth++
 	defer func() { i.depth-- }()
 	if i.depth > i.cfg.MaxDepth {
